@@ -350,6 +350,7 @@ type Server struct {
 
 	concurrency atomic.Uint32
 	open        atomic.Int32
+	serving     atomic.Int32 // number of running Serve calls
 	stop        atomic.Int32
 
 	rejectedRequestsCount atomic.Uint32
@@ -2008,7 +2009,11 @@ func (s *Server) Serve(ln net.Listener) error {
 	// a connection Shutdown is called which reads open as 0 because it isn't
 	// incremented yet.
 	s.open.Add(1)
-	defer s.open.Add(-1)
+	s.serving.Add(1)
+	defer func() {
+		s.serving.Add(-1)
+		s.open.Add(-1)
+	}()
 
 	for {
 		c, err := acceptConn(s, ln, &lastPerIPErrorTime)
@@ -2285,15 +2290,9 @@ func (s *Server) GetCurrentConcurrency() uint32 {
 //
 // This function is intended be used by monitoring systems.
 func (s *Server) GetOpenConnectionsCount() int32 {
-	if s.stop.Load() == 0 {
-		// Decrement by one to avoid reporting the extra open value that gets
-		// counted while the server is listening.
-		return s.open.Load() - 1
-	}
-	// This is not perfect, because s.stop could have changed to zero
-	// before we load the value of s.open. However, in the common case
-	// this avoids underreporting open connections by 1 during server shutdown.
-	return s.open.Load()
+	// Every running Serve call holds one extra unit of s.open while it is
+	// listening, see Serve. Do not report those.
+	return s.open.Load() - s.serving.Load()
 }
 
 // GetRejectedConnectionsCount returns a number of rejected connections.
